@@ -398,7 +398,7 @@ pub fn run(ctx: &Ctx, prop: &'static str, quick: u64, thorough: u64) -> Report {
         if i == 0 {
             rep.sample(d());
         }
-        let mut fail = |sig: &str, what: String, rep: &mut Report| rep.violations.push(viol(prop, format!("{} mega:{}", prop, sig), what, d()));
+        let fail = |sig: &str, what: String, rep: &mut Report| rep.violations.push(viol(prop, format!("{} mega:{}", prop, sig), what, d()));
         // ---- C19: fault handling only
         if prop == "C19" {
             if obs.world.fault_ev.is_none() {
